@@ -157,6 +157,8 @@ pub(crate) mod gen {
         PSet { name: "ckks_n2",       scheme: SchemeType::CKKS, n: 2, q: &[97, 113, 193],  t: 0,   expand: true, special: false },
         PSet { name: "bfv_n2_4p",     scheme: SchemeType::BFV,  n: 2, q: &[97, 113, 193, 241], t: 17, expand: true, special: false }, // 4 levels
         PSet { name: "bfv_n2_bigt",   scheme: SchemeType::BFV,  n: 2, q: &[97, 113],       t: 1009, expand: false, special: true }, // t > q_0 and (Q mod t) >= q_0
+        // 60-bit prime with a 40-bit t chosen so that (q mod t) ~ 2^30: (q mod t)*m reaches 2^64 for m < t (carry corner of multiply_add_plain)
+        PSet { name: "bfv_n2_q60_t40", scheme: SchemeType::BFV, n: 2, q: &[1152921504606830593], t: 1099511626751, expand: true, special: false },
         // residue byte widths 1, 2 and 3 (97, 12289, 65537) for the byte-width packing of the serializers
         PSet { name: "bfv_n2_bytes",  scheme: SchemeType::BFV,  n: 2, q: &[97, 12289, 65537], t: 17, expand: false, special: true },
         // N=4 (q = 1 mod 8), batching t = 17
@@ -166,6 +168,8 @@ pub(crate) mod gen {
         PSet { name: "bfv_n4",        scheme: SchemeType::BFV,  n: 4, q: &[97, 113, 193],  t: 17,  expand: true, special: false },
         // N=16 (q = 1 mod 32), batching t = 97: used for the rotation-composition logic (data irrelevant)
         PSet { name: "bfv_n16_2p1",   scheme: SchemeType::BFV,  n: 16, q: &[193, 257],     t: 97,  expand: true, special: true },
+        // N=32 (q = 1 mod 64), batching t = 193: rotation composition with NAF digits -N/2
+        PSet { name: "bfv_n32_2p1",   scheme: SchemeType::BFV,  n: 32, q: &[257, 449],     t: 193, expand: true, special: true },
         // N=8 (q = 1 mod 16), batching t = 17
         PSet { name: "bfv_n8_2p1",    scheme: SchemeType::BFV,  n: 8, q: &[97, 113],       t: 17,  expand: true, special: true },
     ];
